@@ -20,6 +20,8 @@ PEER = B.PEER_HOSTS[0]
 STATES = [B.PEER_CONNECTING, B.PEER_CONNECTED, B.PEER_READY, B.PEER_READY_WAITING_DWA, B.PEER_DISCONNECTING, B.PEER_CLOSING, B.PEER_CLOSED]
 KINDS = ["ccr_sync_rc", "ccr_sync_no_rc", "cer", "dwr", "dpr", "ccr", "ccr_unknown_app", "ccr_wrong_realm", "ccr_missing_avp", "unknown_cmd_req",
          "cea", "dwa", "dpa", "cca", "unknown_cmd_ans"]
+# one_step only: requests of a command without python class, decoded from the wire (repeated AVPs become list attributes)
+STEP_KINDS = KINDS + ["undef_req_oh", "undef_req_2oh", "undef_req_2oh_sync"]
 DEFECTS = ["none", "no_origin_host", "no_result_code", "no_avps", "t_flag"]
 
 
@@ -47,6 +49,24 @@ def mk(kind, hbh, e2e, defect="none"):
         m = B.dpa(PEER, hbh, e2e)
     elif kind == "cca":
         m = B.cca(PEER, hbh, e2e)
+    elif kind in ("undef_req_oh", "undef_req_2oh", "undef_req_2oh_sync"):
+        from diameter.message.avp import Avp
+        from diameter.message import constants as K
+        raw = B.Message()
+        raw.header.command_code = 999
+        raw.header.is_request = True
+        raw.header.is_retransmit = defect == "t_flag"
+        raw.header.hop_by_hop_identifier = hbh
+        raw.header.end_to_end_identifier = e2e
+        raw.header.application_id = 4
+        if defect != "no_avps":
+            if defect != "no_origin_host":
+                raw.append_avp(Avp.new(K.AVP_ORIGIN_HOST, value=PEER.encode()))
+                if kind != "undef_req_oh":
+                    raw.append_avp(Avp.new(K.AVP_ORIGIN_HOST, value=b"second." + PEER.encode()))
+            raw.append_avp(Avp.new(K.AVP_ORIGIN_REALM, value=B.REALM.encode()))
+            raw.append_avp(Avp.new(K.AVP_DESTINATION_REALM, value=B.REALM.encode()))
+        return B.Message.from_bytes(raw.as_bytes())
     else:
         m = B.Message()
         m.header.command_code = 999
@@ -78,12 +98,12 @@ def sig(m):
 
 def one_step(st: int, kind: int, defect: int, raises: bool) -> bool:
     """
-    pre: st == P["st"] and 0 <= kind < len(KINDS) and 0 <= defect < len(DEFECTS)
+    pre: st == P["st"] and 0 <= kind < len(STEP_KINDS) and 0 <= defect < len(DEFECTS)
     post: _
     """
     hx.begin()
     st_v = STATES[P["st"]]
-    k = KINDS[hx.concretize_range(kind, 0, len(KINDS))]
+    k = STEP_KINDS[hx.concretize_range(kind, 0, len(STEP_KINDS))]
     d = DEFECTS[hx.concretize_range(defect, 0, len(DEFECTS))]
     inputs = (st, kind, defect, raises)
     try:
@@ -91,7 +111,7 @@ def one_step(st: int, kind: int, defect: int, raises: bool) -> bool:
         n, p, app = b.node, b.peers[0], b.apps[0]
         c, s = b.make_ready(p)
         app.raise_in_handler = bool(raises)
-        app.sync_answer = {"ccr_sync_rc": "rc", "ccr_sync_no_rc": "no_rc"}.get(k)
+        app.sync_answer = {"ccr_sync_rc": "rc", "ccr_sync_no_rc": "no_rc", "undef_req_2oh_sync": "rc"}.get(k)
         if k == "cca":
             n._app_waiting_answer["71:72"] = app        # somebody once sent request 71/72: the answer goes to the application
         if raises:
@@ -205,7 +225,7 @@ def stream_cut(a: int) -> bool:
 
 def specs(tier, seed, carve):
     q = tier == "quick"
-    out = [dict(id="one_step/state%d" % st, fn="one_step", params={"st": st}, timeout=600, bound="connection state %#x x 15 message kinds x 5 defect classes (incl. T flag with the id in the retransmission window) x handler raises/returns" % STATES[st])
+    out = [dict(id="one_step/state%d" % st, fn="one_step", params={"st": st}, timeout=600, bound="connection state %#x x 18 message kinds (incl. requests of a command without python class, decoded from the wire, with one and with two Origin-Host AVPs) x 5 defect classes (incl. T flag with the id in the retransmission window) x handler raises/returns" % STATES[st])
            for st in range(len(STATES))]
     nbytes = sum(len(mk(k_, 1, 1).as_bytes()) for k_ in ("dwr", "ccr_unknown_app", "dwr"))
     step = 24
